@@ -160,10 +160,10 @@ Proof.
         -- reflexivity.
         -- rewrite flush_keeps_alt. symmetry. exact Ea.
         -- intros v' E. discriminate.
-    + cbn [fst snd]. split; [reflexivity|]. split; [|rewrite flush_keeps_alt; reflexivity].
+    + rewrite Hp. cbn [fst snd]. split; [reflexivity|]. split; [|rewrite flush_keeps_alt; reflexivity].
       constructor; cbn [o_vt o_above o_pending o_alt o_latest].
       * exact S'.
-      * exact Hp.
+      * reflexivity.
       * rewrite flush_keeps_alt. exact Ha.
       * intros v' E. discriminate.
   - (* Resize, alt screen only *)
